@@ -17,8 +17,10 @@ REFUTED = [
     "C04_remove_never_fails_refuted (removing a renamed data set raises KeyError)",
 ]
 PARTIAL = [
-    "C04_rows_live_partial (every index row belongs to a live hole, proved for histories without hole removal; the exact side "
-    "condition 'no rename' is only covered by the correspondence and the oracle)",
+    "C04_rows_live_partial, C04_records_exact_partial, C04_api_isolation_partial, C04_api_isolation_same_hole_partial, "
+    "C04_api_table_view_partial, C04_api_read_your_write_add_partial: proved for every history WITHOUT RENAME (the exact side "
+    "condition: the three refutations show one rename breaks each of them); C04_api_read_your_write_set, C04_api_tiled, "
+    "C04_records_unique and the index-level theorems hold for all histories",
 ]
 TRUSTED = [
     "Coq 8.16.1 kernel + vm_compute (correspondence evaluation); no axioms (Print Assumptions: closed)",
@@ -44,14 +46,17 @@ RULE = (
     "through the workspace or the parent, explicit empty group, re-open; non-trivial = some deletion shifted a later row"
 )
 LEVEL_TEXT = (
-    "Proved in Coq for all sequences of update_array_attribute calls (any labels, holes, lengths incl. 0): the index rows tile the "
-    "array exactly (contiguous in Start-index order from 0, cover it, unique keys), no call can fail and the unsigned start shift "
-    "never underflows; read-your-write, isolation between keys and labels, removal removes, and the group-wide view lists exactly "
-    "the per-key slices. The attribute layer (records, Property: keys, object ids; add/update/rename/remove cascades) is a faithful "
-    "model: all reachable states have tiled tables, hole removal clears the hole's own rows (repaired), and the stale-entry / "
-    "key-name / removal-never-fails statements are refuted with rename witnesses, with the row-liveness invariant proved for "
-    "histories without hole removal. Model and code are tied on every run by replaying generated operation sequences "
-    "on geoh5py and comparing raw Index/Data datasets, attribute records, object ids and API read-backs with the model inside Coq."
+    "Proved in Coq. Index level, for all sequences of update_array_attribute calls (any labels, holes, lengths incl. 0): the index "
+    "rows tile the array exactly, no call can fail, the unsigned start shift never underflows; read-your-write, isolation, removal, "
+    "group-wide view. API level (model of add hole / add data / set values, depths, surveys / rename / remove data, group, hole "
+    "through workspace or parent / explicit group / re-open): every reachable state has tiled tables and at most one record per id; "
+    "a successful update reads back the values written (all histories); and, for every history without rename (exact side condition, "
+    "via a 16-clause well-formedness invariant relating index rows, Property keys, records, object ids and group lists): add_data "
+    "reads back what was written, any operation on one hole leaves every other hole's data and surveys unchanged, the table of a "
+    "data name lists exactly the API values of live holes in order, there is exactly one record per live hole / data set / group and "
+    "none else, and no index row is stale. With rename the last four are refuted by witnesses (open findings). Model and code are "
+    "tied on every run by replaying generated operation sequences on geoh5py and comparing raw Index/Data datasets, attribute "
+    "records, object ids and API read-backs with the model inside Coq."
 )
 TECHNIQUE = "invariant proof (representation theorem: tiled table = encoding of an association list) + model/code correspondence + ledger oracle"
 DRIVE_TIMEOUT = 1500
